@@ -163,3 +163,6 @@ Definition ex_pat : list Z := [1; -1; 0; 1].
 Example SCD_runs : MiniPy.exec (sc_prim (fun d => inject_Z d)) 0 g_SCD [("self.len"%string, VInt 4); ("self.chargePattern"%string, VList (map VInt ex_pat))] =
                    ORet (VQ (Qred (outer (fun d => inject_Z d) ex_pat / inject_Z 4))) /\ (outer (fun d => inject_Z d) ex_pat == inject_Z 0)%Q.
 Proof. split; vm_compute; reflexivity. Qed.
+
+(* ---------- the public getters (SequenceParameters) are exactly a return of the backend call with their own arguments ---------- *)
+Lemma fw_get_SCD : g_fw_get_SCD = SReturn (ECall "SeqObj.sequence_charge_decoration"%string []). Proof. reflexivity. Qed.
